@@ -598,6 +598,17 @@ func runWake(r *common.Run, byClose bool) {
 	_ = want
 	r.Line(line, obs)
 	r.Case(line+"wake", true, "wake")
+	// the same run as a schedule of the reader LTS
+	switch {
+	case obs == "BLOCK" && byClose:
+		r.Line("reader R,C,W", "delivered=0 eof=0 reading=1")
+	case obs == "BLOCK":
+		r.Line("reader R,P3,W", "delivered=0 eof=0 reading=1")
+	case byClose:
+		r.Line("reader R,C,W,K", fmt.Sprintf("delivered=0 eof=%s reading=0", common.B(strings.HasSuffix(obs, "EOF"))))
+	default:
+		r.Line("reader R,P3,W,K", fmt.Sprintf("delivered=%d eof=0 reading=0", (len(obs)-len("ack,D"))/2))
+	}
 }
 
 // runStale: a wake-up signal left over from data that was read without waiting
@@ -656,4 +667,12 @@ func runStale(r *common.Run) {
 	}
 	r.Line(line, obs)
 	r.Case(line+"stale", true, "wake")
+	switch {
+	case strings.HasSuffix(obs, "EARLY"):
+		r.Line("reader P3,R,R,W,K", "delivered=3 eof=0 reading=0")
+	case strings.HasSuffix(obs, "BLOCK"):
+		r.Line("reader P3,R,R,W,K,P3", "delivered=3 eof=0 reading=1")
+	default:
+		r.Line("reader P3,R,R,W,K,P3,W,K", fmt.Sprintf("delivered=%d eof=0 reading=0", len(first)+(len(obs)-strings.LastIndex(obs, ",D")-2)/2))
+	}
 }
